@@ -62,7 +62,7 @@ P = {
          "5/C10"),
  "C11": (True,
          'runtime monitor: every Write of the real writer goroutine is recorded by the scripted connection; the written byte stream is re-framed and compared offline with the expected multiset and per-producer order; Go race detector',
-         "1..64 producer goroutines submit uniquely identified messages of all sizes to a real MessageStream; the recorded written bytes are re-framed by header length and must be exactly the expected encodings, each once, contiguous, with each producer's sequence numbers increasing; nothing may be missing at logical quiescence. The stream's exported Version field is set, raw pre-encoded frames with other version bytes are submitted, and submitted objects are re-encoded after the run (sending must not change them).",
+         "1..64 producer goroutines submit uniquely identified messages of all sizes to a real MessageStream; the recorded written bytes are re-framed by header length and must be exactly the expected encodings, each once, contiguous, with each producer's sequence numbers increasing; nothing may be missing at logical quiescence. The stream's exported Version field is set, raw pre-encoded frames with other version bytes are submitted, and submitted objects are re-encoded after the run (sending must not change them). One case in eight runs in virtual time (testing/synctest under the pre-installed go1.26.8) with producers that pause for a second to a day between submissions, so the connection sits idle for longer than any timer an implementation might arm.",
          "Expected bytes are the library's own encoding of a twin. No write errors are injected (the writer exits the process on error by design).",
          "5/C11"),
  "C12": (True,
